@@ -1,4 +1,5 @@
 import PikaVerif.Lemmas.Stop3
+import PikaVerif.Lemmas.Stop9
 import PikaVerif.Lemmas.StopRef
 /-!
 # C14 — stop_token: one winning stop request, each callback exactly once
@@ -196,6 +197,197 @@ theorem C14_not_after_dtor_partial (s s' : St) (hr : Reachable s) (a c : Nat)
     · simp at h
   · simp at h
 
+/-! ## Follow-up C14p: program order of a thread (call stack), destructor versus running callback
+
+`thr K a = a % K` is the *thread* of activity `a`: the pika thread when the caller is a pika
+task, the OS thread for a plain OS thread (that is what `remove_callback` compares after the
+repair: `get_self_id()`, and the OS thread id only when that id is invalid).  `ReachableF`
+adds to `Reachable` that the identities `ident` tell exactly these threads apart. -/
+
+/-- reachable in the model of the repaired code, `K > 0` threads, faithful thread identities -/
+def ReachableF (s : St) : Prop :=
+  ∃ n K ident fixCtor srcs log, 0 < K ∧ (∀ a b, ident a = ident b ↔ a % K = b % K) ∧
+    runLog step (init n K ident true fixCtor srcs) log = some s
+
+theorem ReachableF.reachable {s : St} (h : ReachableF s) : Reachable s := by
+  obtain ⟨n, K, ident, fc, srcs, log, _, _, hl⟩ := h
+  exact ⟨n, K, ident, fc, srcs, log, hl⟩
+
+theorem invAll_of_reachableF {s : St} (h : ReachableF s) : InvAll s := by
+  obtain ⟨n, K, ident, fc, srcs, log, hK, hid, hl⟩ := h
+  exact invAll_of_accepted hK hid hl
+
+/-- the callback `c` is being invoked or processed by activity `w`: from the constructor
+    (`regPhase`, stop already requested) or by request_stop between dequeue and finished-store
+    (`winPhase`); in particular `s.pc w = .body c _` (the body is running) -/
+def processes (s : St) (w c : Nat) : Prop :=
+  winPhase (s.pc w) = some c ∨ (regPhase (s.pc w) = some c ∧ regLockPhase (s.pc w) = none)
+
+theorem body_processes {s : St} {w c : Nat} {inl : Bool} (h : s.pc w = .body c inl) : processes s w c := by
+  cases inl <;> simp [processes, h, winPhase, regPhase, regLockPhase]
+
+/-- **Never after the destructor has returned** (full clause 1).  Whenever the model accepts
+    `cb.begin` for callback `c`, the object exists (constructor invoked, destructor not
+    returned), and no destructor of `c` is even past its last access to the stop state
+    (`retUnreg`: only the `return` of `remove_callback` is left).  `cb.begin` is the only event
+    that enters a callback body, `life c = dead` is set by the return of the destructor. -/
+theorem C14_not_after_dtor (s s' : St) (hr : ReachableF s) (a c : Nat)
+    (h : step s (.cbBegin a c) = some s') :
+    s.life c ≠ .dead ∧ s.life c ≠ .new ∧ ∀ b, retUnreg (s.pc b) ≠ some c := by
+  have hI := invAll_of_reachableF hr
+  have hB := hI.B
+  simp only [step] at h
+  split at h
+  · split at h
+    · rename_i c' inl hp
+      split at h
+      · rename_i hc; subst hc
+        cases inl with
+        | true =>
+          have h1 := (hB.regP a c' (by simp [hp, regPhase])).1
+          refine ⟨by simp [h1], by simp [h1], ?_⟩
+          intro b hb
+          have := hB.unregP b c' (unregDone_unregOf (retUnreg_unregDone hb))
+          rw [h1] at this; simp at this
+        | false =>
+          have h1 := hB.winP a c' (by simp [hp, winPhase])
+          have h2 : s.runs c' = 0 := by simpa [hp, ranOf] using hB.runsW a c' (by simp [hp, winPhase])
+          refine ⟨hI.D.pend c' h1 h2, ?_, fun b hb => hI.D.pendR b c' hb h1 h2⟩
+          intro hn
+          have := (hB.fresh c' hn).2.1
+          rw [h1] at this; simp at this
+      · simp at h
+    · simp at h
+  · simp at h
+
+/-- once returned, a destructor stays returned: `life c = dead` is never left -/
+theorem C14_dead_is_final (s s' : St) (e : Ev) (hr : Reachable s) (h : step s e = some s') (c : Nat)
+    (hd : s.life c = .dead) : s'.life c = .dead := by
+  have hB := (invAB_of_reachable hr).2
+  have hreg : ∀ a b, s.pc a = .retn (.reg c) b → False := by
+    intro a b hp; have := (hB.retRegP a c b hp).1; rw [hd] at this; simp at this
+  cases e <;> simp only [step] at h <;> (repeat' split at h) <;>
+    first
+    | (simp at h; done)
+    | (simp only [Option.some.injEq] at h; subst h; exact hd)
+    | (simp only [Option.some.injEq] at h; subst h; dsimp only; simp only [upd_apply]; split
+       · rename_i hc; subst hc
+         first
+         | rfl
+         | (exfalso; rename_i hp _; exact hreg _ _ hp)
+         | (exfalso; simp_all; done)
+         | (exfalso; grind)
+       · exact hd)
+
+/-- **The destructor waits for a callback running on another thread** (clause 2, first half).
+    In every reachable state: if callback `c` is being processed by activity `w` (in particular
+    while its body runs) and the destructor of `c` has returned, or has passed its last access
+    and is about to return, then that destructor runs on the thread of `w` (it was called from
+    inside the callback).  Contrapositive: a destructor on *another* thread does not return
+    before request_stop has stored `callback_finished_executing_`. -/
+theorem C14_dtor_waits_for_other_thread (s : St) (hr : ReachableF s) (w c : Nat)
+    (hw : processes s w c) :
+    (s.life c = .dead → thr s.K (s.dtorBy c) = thr s.K w) ∧
+    (∀ b, retUnreg (s.pc b) = some c → thr s.K b = thr s.K w) := by
+  have hI := invAll_of_reachableF hr
+  rcases hw with hw | ⟨hw, _⟩
+  · exact ⟨hI.T.sameThrD w c hw, fun b hb => hI.T.sameThrR w b c hw hb⟩
+  · have h1 := (hI.B.regP w c hw).1
+    refine ⟨fun hd => by rw [h1] at hd; simp at hd, fun b hb => ?_⟩
+    have := hI.B.unregP b c (unregDone_unregOf (retUnreg_unregDone hb))
+    rw [h1] at this; simp at this
+
+/-- event form: a destructor that returns while the callback body is running returns on the
+    thread that runs the callback -/
+theorem C14_dtor_return_while_running (s s' : St) (hr : ReachableF s) (b c w : Nat) (r r' inl : Bool)
+    (hb : s.pc b = .retn (.unreg c) r') (_h : step s (.ret b r) = some s') (hw : s.pc w = .body c inl) :
+    thr s.K b = thr s.K w :=
+  (C14_dtor_waits_for_other_thread s hr w c (body_processes hw)).2 b (by simp [hb, retUnreg])
+
+/-- **… but not for one running on its own thread** (clause 2, second half).  An activity that
+    waits in `remove_callback` for `callback_finished_executing_` of `c` is never on the thread
+    that processes `c`: a destructor called from inside the callback (at any nesting depth)
+    does not wait. -/
+theorem C14_dtor_does_not_wait_for_own_thread (s : St) (hr : ReachableF s) (b c w : Nat)
+    (hb : s.pc b = .wait c) (hw : processes s w c) : thr s.K w ≠ thr s.K b := by
+  have hI := invAll_of_reachableF hr
+  rcases hw with hw | ⟨hw, _⟩
+  · intro ht
+    have hwin := hI.A.winPhaseWinner w c hw
+    have hs := hI.S.sigW w hwin
+    have := hI.D.waitOther b c hb
+    apply this
+    rw [hs]; exact (hI.F.2 w b).2 ht
+  · have h1 := (hI.B.regP w c hw).1
+    have := hI.B.unregP b c (by simp [hb, unregOf])
+    rw [h1] at this; simp at this
+
+/-- the decision of `remove_callback` (`stop.self`): it takes the non-waiting branch exactly
+    when it runs on the thread of the request_stop that won -/
+theorem C14_self_check_iff_signalling_thread (s s' : St) (hr : ReachableF s) (b c w : Nat) (eq hadPtr : Bool)
+    (h : step s (.selfChk b c eq hadPtr) = some s') (hw : s.winner = some w) :
+    (eq = true ↔ thr s.K b = thr s.K w) := by
+  have hI := invAll_of_reachableF hr
+  have hs := hI.S.sigW w hw
+  simp only [step] at h
+  split at h
+  · rename_i hg
+    rw [hg.2.2, hs]
+    simp only [decide_eq_true_eq]
+    constructor
+    · intro he; exact ((hI.F.2 w b).1 he).symm
+    · intro ht; exact (hI.F.2 w b).2 ht.symm
+  · simp at h
+
+/-! ### Progress (clause 3)
+
+`productive e`: every event except the environment's choices (invoking a new operation,
+finishing a thread, copying / dropping a stop_source, a query) and futile spins (a failed CAS
+or a re-load that saw the lock bit held).  `enabled s e`: the model accepts `e` in `s`.
+Callback bodies are the harness' scripts (a body can always return once its nested operation
+has returned); blocking bodies are outside the model. -/
+
+/-- reachable with the repaired constructor (`fixCtor = true`) as well -/
+def ReachableP (s : St) : Prop :=
+  ∃ n K ident srcs log, 0 < K ∧ (∀ a b, ident a = ident b ↔ a % K = b % K) ∧
+    runLog step (init n K ident true true srcs) log = some s
+
+theorem ReachableP.reachableF {s : St} (h : ReachableP s) : ReachableF s := by
+  obtain ⟨n, K, ident, srcs, log, hK, hid, hl⟩ := h
+  exact ⟨n, K, ident, true, srcs, log, hK, hid, hl⟩
+
+theorem invProg_of_reachableP {s : St} (h : ReachableP s) : InvProg s := by
+  obtain ⟨n, K, ident, srcs, log, hK, hid, hl⟩ := h
+  exact invProg_of_accepted hK hid hl
+
+/-- **Progress.**  In every reachable state every activity `a` that is inside a stop_state
+    operation (at any nesting depth)
+    1. is inside a callback body whose nested operation `a + K` is active (the thread is busy
+       there, and the theorem applies to `a + K`), or
+    2. can perform a productive step itself, or
+    3. spins in a lock loop while another activity holds the lock, and that holder can perform
+       its next step, which releases the lock (the lock is never held across a wait), or
+    4. *legitimately* waits in `remove_callback`: the finished flag of `c` is not yet stored and
+       `c` is being processed by request_stop on **another** thread (which by this theorem is
+       not stuck, and by `C14_dtor_does_not_wait_for_own_thread` never waits itself).
+    In particular a callback that destroys itself or another callback never blocks. -/
+theorem C14_progress (s : St) (hr : ReachableP s) (a : Nat) (ha : act (s.pc a) = true) :
+    (isBody (s.pc a) = true ∧ act (s.pc (a + s.K)) = true)
+    ∨ (∃ e, actor e = a ∧ productive e = true ∧ enabled s e = true)
+    ∨ (∃ h e, s.lock = some h ∧ h ≠ a ∧ lockLoop (s.pc a) = true ∧ actor e = h ∧ productive e = true ∧
+          enabled s e = true ∧ ∀ s', step s e = some s' → s'.lock = none)
+    ∨ (∃ c w, s.pc a = .wait c ∧ s.fin c = false ∧ winPhase (s.pc w) = some c ∧ thr s.K w ≠ thr s.K a) :=
+  progress_local (invProg_of_reachableP hr) a ha
+
+/-- **No deadlock.**  A reachable state in which the model accepts no productive event has
+    every activity idle or finished: no thread is stuck inside a stop_state operation, whatever
+    the callbacks destroy, register or request (nesting of any depth). -/
+theorem C14_no_deadlock (s : St) (hr : ReachableP s)
+    (hstuck : ∀ e, productive e = true → enabled s e = false) (a : Nat) :
+    s.pc a = .idle ∨ s.pc a = .fin := by
+  have := stuck_all_idle (invProg_of_reachableP hr) hstuck a
+  cases hp : s.pc a <;> simp_all [act]
+
 /-! ## The pinned tree (`fixCas = false`): machine-checked counterexamples -/
 
 /-- Two threads; thread 1 loads the word before thread 0 wins, dequeues a callback and
@@ -333,6 +525,33 @@ def exampleLog : List Ev :=
 
 example : ∃ s, runLog step (init 4 2 (fun a => a % 2 + 1) true true 2) exampleLog = some s ∧
     s.rsTrue = 1 ∧ s.runs 0 = 1 := by
+  refine ⟨_, rfl, ?_⟩
+  decide
+
+/-- C14p: a callback that destroys itself from inside its body (nested activity `2 = 0 + K`):
+    the destructor takes the own-thread branch, sets `is_removed`, returns without waiting;
+    request_stop skips the finished store and completes -/
+def selfDestroyLog : List Ev :=
+  [.inv 0 (.reg 0), .load 0 false false 2, .acq 0, .push 0 0 false, .ret 0 false,
+   .inv 0 .rs, .load 0 false false 2, .acq 0, .deq 0 0 false, .preExec 0 0, .cbBegin 0 0,
+   .inv 2 (.unreg 0), .load 2 false true 2, .acq 2, .unlink 2 0 false, .selfChk 2 0 true true, .ret 2 false,
+   .cbEnd 0 0, .finStore 0 0 true, .load 0 false true 2, .acq 0, .rsDone 0, .ret 0 true]
+
+example : ∃ s, runLog step (init 4 2 (fun a => a % 2 + 1) true true 2) selfDestroyLog = some s ∧
+    s.life 0 = .dead ∧ s.runs 0 = 1 ∧ s.rsTrue = 1 ∧ (∀ a, a < 4 → s.pc a = .idle) := by
+  refine ⟨_, rfl, ?_⟩
+  decide
+
+/-- C14p: the destructor on another thread takes the waiting branch, `stop.waited` is rejected
+    while the body runs and accepted after the finished store -/
+def otherThreadWaitsLog : List Ev :=
+  [.inv 0 (.reg 0), .load 0 false false 2, .acq 0, .push 0 0 false, .ret 0 false,
+   .inv 0 .rs, .load 0 false false 2, .acq 0, .deq 0 0 false, .preExec 0 0, .cbBegin 0 0,
+   .inv 1 (.unreg 0), .load 1 false true 2, .acq 1, .unlink 1 0 false, .selfChk 1 0 false false]
+
+example : ∃ s, runLog step (init 4 2 (fun a => a % 2 + 1) true true 2) otherThreadWaitsLog = some s ∧
+    s.pc 1 = .wait 0 ∧ s.pc 0 = .body 0 false ∧ step s (.waited 1 0) = none ∧
+    (runLog step s [.cbEnd 0 0, .finStore 0 0 false, .waited 1 0, .ret 1 false]).isSome = true := by
   refine ⟨_, rfl, ?_⟩
   decide
 
